@@ -360,6 +360,9 @@ func (e *scriptEnricher) Enrich(ctx context.Context, g driver.EnrichmentGetter, 
 	e.w.seenVulns[e.idx] = nv
 	e.w.seenPkgs[e.idx] = np
 	e.w.mu.Unlock()
+	if e.w.sc.cancelAtEnricher == e.idx+1 && e.w.cancel != nil {
+		e.w.cancel()
+	}
 	if _, err := g.GetEnrichment(ctx, []string{"t"}); err != nil {
 		return "", nil, err
 	}
